@@ -19,7 +19,8 @@ ROLES = ['r0', 'r1', 'r2']
 CREDS = [{'roles': s, 'project_id': 'p'} for s in gen.subsets(ROLES)]
 STR_VALUES = ['role:r0', 'role:r1 or role:r2', 'not role:r0', '@', '!', '', 'role:r0 and (role:r1 or role:r2)', "role:r2 or 'x':%(k)s",
               'role:r1 or "dq":%(k)s', 'role:r0 or a\\b:%(k)s', 'rule:helper', 'role:r1 and rule:helper']
-LIST_VALUES = [[['role:r0']], [['role:r0', 'role:r1'], ['role:r2']], [], ['role:r1'], [['role:r0'], 'role:r2']]
+LIST_VALUES = [[['role:r0']], [['role:r0', 'role:r1'], ['role:r2']], [], ['role:r1'], [['role:r0'], 'role:r2'], [[]], [[], []], [''],
+               [[], ['role:r1']], [['@', 'role:r0']], ['!', ['role:r2']]]
 
 
 def default_sets(rng):
@@ -242,7 +243,7 @@ def _generate_and_redundant(ctx, rep, tmp):
                 # a textual variant of the default: same rule, different spelling
                 variant = ctx.rng.choice(['( %s )' % reg['check_str'] if reg['check_str'] else '@',
                                           reg['check_str'].replace(' and ', ' AND ').replace(' or ', '  or '), reg['check_str']])
-            val = variant if variant is not None else ctx.rng.choice(STR_VALUES + LIST_VALUES[:2])
+            val = variant if variant is not None else ctx.rng.choice(STR_VALUES + LIST_VALUES)
             if r < 0.3:
                 main[n] = val
             elif r < 0.5:
